@@ -262,8 +262,30 @@ func registerJSONDB(e *Engine) {
 			}
 			return c.Return(e.newErrorString(c.St, StrC("invalid character in JSON input")))
 		}
-		// symbolic text (torn prefix of a payload): a proper prefix of a JSON object is never valid JSON
-		return c.Return(e.newErrorString(c.St, StrC("unexpected end of JSON input")))
+		// symbolic text (a torn prefix of a payload, possibly followed by a later record on the same
+		// line): valid exactly when it equals a registered token — a proper prefix of a JSON
+		// object, or such a prefix followed by another object, is never valid JSON
+		var toks []string
+		for k := range c.St.Ghost {
+			if strings.HasPrefix(k, "jsonobj:") {
+				toks = append(toks, strings.TrimPrefix(k, "jsonobj:"))
+			}
+		}
+		sort.Strings(toks)
+		var outs []Outcome
+		var any []*Term
+		for _, tk := range toks {
+			tk := tk
+			sp, ok := c.St.Ghost["jsonobj:"+tk].(Ptr)
+			if !ok {
+				continue
+			}
+			cond := Eq(s, StrC(tk))
+			any = append(any, cond)
+			outs = append(outs, Outcome{Cond: cond, Ret: Iface{}, Eff: func(st *State) { st.Store(dp, st.Load(sp)) }})
+		}
+		outs = append(outs, Outcome{Cond: Not(Or(any...)), Ret: e.newErrorString(c.St, StrC("unexpected end of JSON input"))})
+		return c.Outcomes(c.sol2(), outs)
 	}
 	e.Intr["golang.org/x/exp/rand.Intn"] = func(c *Call) []*State { return c.Return(BVC(0, 64)) }
 }
